@@ -161,12 +161,17 @@ Definition handle_open (n : node) (h : nat) : bool :=
 (* the client calls that attempt a mutation (on an existing target) *)
 Definition must_reject (n : node) (c : cop) : bool :=
   match c with
-  | CPut _ _ | CDel _ | CBatch _ | SPut _ _ | SDel _ | SCompact true => true
+  | CPut _ _ | CDel _ | CBatch _ | SPut _ _ | SDel _ => true
   | SBatch ops => match ops with [] => false | _ => true end
   | CTxPut h _ _ | CTxDel h _ => handle_open n h
   | CGeneric true true => true
   | _ => false
   end.
+
+(* the only thing a client call contributes to the engine state of a replica: Compact(force)
+   flushes the memtables (maintenance; EngineProofs.C01_flush_invariant: no read changes) *)
+Definition maint (c : cop) (e : st) : st :=
+  match c with SCompact true => flush e | _ => e end.
 
 (* the actions of a replica: any client call through the facade, the accessor or the
    service, any applied entry, SetReadOnly(true). Excluded: an entry point the model does not
@@ -226,7 +231,7 @@ Proof. reflexivity. Qed.
    error, and the node is still a replica afterwards *)
 Lemma client_step : forall n c, ro_inv n -> safe_act (AClient c) = true ->
   let x := step_client n c in
-  ro_inv (fst x) /\ eng (fst x) = eng n /\ (must_reject n c = true -> ro_class (snd x) = true).
+  ro_inv (fst x) /\ eng (fst x) = maint c (eng n) /\ (must_reject n c = true -> ro_class (snd x) = true).
 Proof.
   intros n c (Hro & Hrw) Hs. unfold ro_inv.
   destruct c; simpl in *; rewrite ?Hro; simpl.
@@ -273,7 +278,7 @@ Theorem ro_step : forall n a, ro_inv n -> safe_act a = true ->
   let x := step_act n a in
   ro_inv (fst x) /\
   match a with
-  | AClient c => eng (fst x) = eng n /\ (must_reject n c = true -> ro_class (snd x) = true)
+  | AClient c => eng (fst x) = maint c (eng n) /\ (must_reject n c = true -> ro_class (snd x) = true)
   | ARepl r => (eng (fst x), snd x) = apply_eng (eng n) r
   | ASetRO _ => eng (fst x) = eng n
   end.
@@ -286,10 +291,12 @@ Proof.
 Qed.
 
 (* whole traces: any interleaving of client calls with replication apply *)
+(* what a trace does to the data: the applied entries, and a flush for each Compact(force) *)
 Fixpoint repl_only (l : list act) : list rop :=
   match l with
   | [] => []
   | ARepl r :: t => r :: repl_only t
+  | AClient (SCompact true) :: t => RSync :: repl_only t
   | _ :: t => repl_only t
   end.
 
@@ -314,8 +321,11 @@ Proof.
     specialize (IH (fst (step_act n a)) Hinv' Hl). simpl in IH.
     destruct IH as (I1 & I2 & I3).
     split; [exact I1|]. split.
-    + rewrite I2. destruct a; simpl in *; try (destruct Hstep as (-> & _); reflexivity);
-        try (rewrite Hstep; reflexivity); reflexivity.
+    + rewrite I2. destruct a as [c|r|b]; simpl in *.
+      * destruct Hstep as (E & _). rewrite E.
+        destruct c; try reflexivity. destruct force; reflexivity.
+      * reflexivity.
+      * reflexivity.
     + split; [|exact I3]. destruct a; auto. tauto.
 Qed.
 
@@ -337,8 +347,8 @@ Example ro_trace_nonvacuous :
   let n0 := start rc_replica (init cfg0) in
   ro_inv n0 /\ forallb safe_act demo_trace = true /\
   let x := run_acts n0 demo_trace in
-  node_get (fst x) kA = None /\ node_get (fst x) kB = Some v2 /\
-  snd x = [ROk; RRoErr; ROk; RRoTx; ROk; ROk; RRoTx; RRoTx; ROk; ROk; RRoErr; RRoErr; ROk; RRoTx; ROk; ROk].
+  node_get (fst x) kA = None /\ node_get (fst x) kB = Some v1 /\
+  snd x = [ROk; RRoErr; ROk; RRoTx; ROk; ROk; RRoTx; ROk; ROk; ROk; RRoErr; RRoErr; ROk; RRoTx; ROk; ROk].
 Proof. vm_compute. repeat split; reflexivity. Qed.
 
 (* replicated operations still apply: the applier changes the data exactly as the engine's own
@@ -357,8 +367,14 @@ Example apply_nonvacuous :
   let n0 := start rc_replica (init cfg0) in
   node_get (fst (step_repl n0 (RPutE kA v1))) kA = Some v1 /\
   node_get (fst (step_repl (fst (step_repl n0 (RPutE kA v1))) (RDelE kA))) kA = None /\
-  node_get (fst (run_acts n0 (expand true (RMergeE kA v2)))) kA = Some v2.
+  (* a merge entry is accepted and changes nothing *)
+  step_repl (fst (step_repl n0 (RPutE kA v1))) (RMergeE kA v2) = (fst (step_repl n0 (RPutE kA v1)), ROk) /\
+  node_get (fst (run_acts n0 (expand true (RMergeE kA v2)))) kA = None.
 Proof. vm_compute. repeat split; reflexivity. Qed.
+
+(* a merge entry never changes the node, whatever its state *)
+Theorem merge_no_effect : forall n k v, step_repl n (RMergeE k v) = (n, ROk).
+Proof. intros. destruct n. reflexivity. Qed.
 
 (* reads are served from the data whatever the flag says *)
 Theorem reads_unaffected : forall n k univ,
@@ -433,7 +449,8 @@ Module BeforeFixes.
   Proof. vm_compute. repeat split; reflexivity. Qed.
 
   (* F2, before 574c666: Apply of a Merge entry on a read-only engine was SetReadOnly(false);
-     engine.Put (the guarded one); SetReadOnly(true) *)
+     engine.Put (the guarded one); SetReadOnly(true). (574c666 routed it through PutInternal;
+     8b33636 then made a merge entry have no effect at all, as on the primary.) *)
   Definition expand_old (is_ro : bool) (r : rop) : list act :=
     match r with
     | RMergeE k v => if is_ro then [ASetRO false; AClient (CPut k v); ASetRO true] else [ARepl r]
@@ -455,7 +472,7 @@ Module BeforeFixes.
   Example merge_window_closed :
     let n0 := start rc_replica (init cfg0) in
     let x := run_acts n0 (expand (ro n0) (RMergeE kA v1) ++ [AClient (CPut kB v2)]) in
-    snd x = [ROk; RRoErr] /\ node_get (fst x) kA = Some v1 /\ node_get (fst x) kB = None.
+    snd x = [ROk; RRoErr] /\ node_get (fst x) kA = None /\ node_get (fst x) kB = None.
   Proof. vm_compute. repeat split; reflexivity. Qed.
 
 End BeforeFixes.
